@@ -39,7 +39,7 @@ def gen_residues(rng, n, style=None):
     return "".join(out[:n])
 
 
-def gen_fasta(rng, nrec=None, maxlen=40, widths=None):
+def gen_fasta(rng, nrec=None, maxlen=40, widths=None, exotic=False):
     nrec = nrec or rng.choice([1, 1, 2, 3, 6])
     width = rng.choice(widths or [1, 2, 3, 4, 5, 7, 10, 60, 80])
     eol = rng.choice(["\n", "\n", "\r\n"])
@@ -53,6 +53,11 @@ def gen_fasta(rng, nrec=None, maxlen=40, widths=None):
             "desc": rng.choice(["", "", " some description", "\tlen=5"]),
             "seq": gen_residues(rng, n),
         })
+        if exotic and rng.random() < 0.15:
+            # FS GS RS US are ordinary bytes for bytes.split() (white space only for str.split());
+            # VT and FF do separate the name from the description
+            recs[-1]["name"] = rng.choice(["s\x1c", "a\x1d_", "HiC_scaffold\x1f", "\x1e"]) + str(i + 1)
+            recs[-1]["desc"] = rng.choice(["", " d", "\x0bvt", "\x0c ff", "\t\x1c"])
     return {"records": recs, "width": width, "eol": eol, "final_nl": final_nl}
 
 
